@@ -302,16 +302,16 @@ class _Norm(ast.NodeTransformer):
                 return ast.copy_location(ast.Call(func=ast.Name(id='__fmt__', ctx=ast.Load()), args=args, keywords=[]), n)
 
             def visit_BinOp(s, n):
-                s.generic_visit(n)
                 if isinstance(n.op, ast.Mod) and isinstance(n.left, ast.Constant) and isinstance(n.left.value, str):
                     args = list(n.right.elts) if isinstance(n.right, ast.Tuple) else [n.right]
                     return ast.copy_location(ast.Call(func=ast.Name(id='__fmt__', ctx=ast.Load()), args=args, keywords=[]), n)
+                s.generic_visit(n)
                 return n
 
             def visit_Call(s, n):
-                s.generic_visit(n)
                 if isinstance(n.func, ast.Attribute) and n.func.attr == 'format' and isinstance(n.func.value, ast.Constant) and isinstance(n.func.value.value, str):
                     return ast.copy_location(ast.Call(func=ast.Name(id='__fmt__', ctx=ast.Load()), args=list(n.args) + [k.value for k in n.keywords], keywords=[]), n)
+                s.generic_visit(n)
                 return n
 
             def visit_Constant(s, n):
@@ -387,7 +387,8 @@ class _Norm(ast.NodeTransformer):
 
     def visit_If(self, n):
         self.generic_visit(n)
-        if n.orelse and not (len(n.orelse) == 1 and isinstance(n.orelse[0], ast.If)):
+        if n.orelse and (not (len(n.orelse) == 1 and isinstance(n.orelse[0], ast.If)) or
+                         (isinstance(n.test, ast.Compare) and len(n.test.ops) == 1 and isinstance(n.test.ops[0], (ast.NotEq, ast.IsNot, ast.NotIn)))):
             if isinstance(n.test, ast.UnaryOp) and isinstance(n.test.op, ast.Not):
                 return ast.copy_location(ast.If(test=n.test.operand, body=n.orelse, orelse=n.body), n)
             # a two-armed if tests the positive form: a != b / a is not b / a not in b  ->  swap the arms
